@@ -152,6 +152,19 @@ def handle : List String → String
         s!"ok bad=0 lines={(Buf.scanAll fuel fuel (Buf.init n ⟨data, script⟩)).1.length}"
       else "bad-args"
     | _, _, _ => "bad-args"
+  | ["scr", kind, bs, d, sc] =>
+    -- a reader that scribbles over the unused part of its destination (allowed by io.Reader): the model's `Read`
+    -- appends the reported bytes only, so the answer is the one of `imm` / `buf`
+    match bs.toNat?, Hex.dec d, parseScript sc with
+    | some n, some data, some script =>
+      let fuel := data.length + script.length + 3
+      if kind = "imm" then
+        let r := Imm.scanAll fuel fuel (Imm.init n ⟨data, script⟩)
+        render r.1 r.2.1 r.2.2.errs r.2.2.arrays
+      else if n ≤ 1 then "panic" else
+        let r := Buf.scanAll fuel fuel (Buf.init n ⟨data, script⟩)
+        render r.1 r.2.1 r.2.2.errs r.2.2.arrays
+    | _, _, _ => "bad-args"
   | ["split", d] =>
     match Hex.dec d with
     | some data => s!"ok {hexList (splitLines data)}"
